@@ -1,14 +1,14 @@
-import Juniper.Proofs.TreeSlotsHistory
+import Juniper.Proofs.TreeSlotsOpsHistory
 /-!
 # C03, clause "no retained garbage", at slot level
 
 "Keys and values that were deleted or moved elsewhere are no longer referenced from the live
 structure."  A node of the real tree has three fixed arrays (`keys [maxKVs]K`, `values [maxKVs]V`,
 `children [branchFactor]*node`); the clause holds iff in every live node every slot behind the live
-prefix is the zero value. `Model/BTreeSlots.lean` keeps those arrays slot by slot and executes a
+prefix is the zero value. `Model/BTreeSlotsOps.lean` keeps those arrays slot by slot and executes a
 zeroing / clearing / shifting statement only if the *generated* fact (`Juniper.Gen.TreeSlots`,
 re-extracted from `btree.go` on every run) says the statement is there; the facts are hypotheses
-of the lemmas in `Proofs/TreeSlots*.lean` and are discharged by `decide` inside the theorems below, so
+of the lemmas in `Proofs/TreeSlotsOps*.lean` and are discharged by `decide` inside the theorems below, so
 dropping one of the statements from the Go source makes exactly the theorems that depend on it (and
 `no_retained_slots`) fail to compile.
 
@@ -26,7 +26,7 @@ That `Put` / `Delete` compose exactly these node-level operations is the hand-wr
 raw slot after every operation (harness `c03slots`).
 -/
 namespace Juniper.Props.C03Slots
-open Juniper.Model.BTreeSlots Juniper.Proofs.TreeSlots Juniper.Gen
+open Juniper.Model.BTreeSlotsOps Juniper.Proofs.TreeSlotsOps Juniper.Gen
 
 variable {α K V C : Type}
 
